@@ -86,4 +86,6 @@ SHARDS.update({
     "urwid/widget/listbox.py:ListBox.calculate_visible": (16, 14),
     "urwid/widget/listbox.py:ListBox.mouse_event": (4, 6),
     "urwid/widget/listbox.py:ListBox.change_focus": (4, 6),
+    "urwid/vterm.py:TermCanvas.csi_set_attr": (12, 6),
+    "urwid/vterm.py:TermCanvas.sgi_to_attrspec": (6, 4),
 })
